@@ -1519,6 +1519,24 @@ func (g *Gen) backEdge(u, h *ssa.BasicBlock) {
 		}
 		g.oblige("inv-step", fmtf("%s/inv-step#loop%d.%d%s", g.fnLabel(), li.ord, k, esuf), implies(edge, t), c.Props, c.Text, u.Instrs[len(u.Instrs)-1].Pos())
 	}
+	// `loop k onrepeat`: what must hold whenever the loop goes round again (evaluated at the back
+	// edge, with the variables of the iteration that is ending in scope)
+	if reps := g.loopClauses(li.ord, "onrepeat"); len(reps) > 0 {
+		envU := g.pointEnv(g.st, u, nil)
+		envU.seqMax = g.seq + 1
+		for k, c := range reps {
+			t, err := envU.evalBool(c.E)
+			if err != nil {
+				g.errorf("%s: loop %d onrepeat #%d: %v", g.fnLabel(), li.ord, k, err)
+				continue
+			}
+			name := fmtf("%s/onrepeat#loop%d.%d%s", g.fnLabel(), li.ord, k, esuf)
+			if c.Label != "" {
+				name = fmtf("%s/onrepeat#loop%d.%s%s", g.fnLabel(), li.ord, c.Label, esuf)
+			}
+			g.oblige("onrepeat", name, implies(edge, t), c.Props, c.Text, u.Instrs[len(u.Instrs)-1].Pos())
+		}
+	}
 	for _, in := range h.Instrs {
 		if ph, ok := in.(*ssa.Phi); ok && ph.Comment == "rangeindex" {
 			goal := app(">=", sub[ph], "(- 1)")
